@@ -98,7 +98,7 @@ def unit_ops(ctx):
 
 def run(ctx):
     ctx.rule = ("units of all 7 types built from the documented key tables with injection payloads as values (escaped newlines followed by forged entries/sections, "
-                "brackets, '#', ';', '=', backslashes, controls, blanks at the edges), unusual file names (newline, '[', '=', '#', blanks) and extra user sections; each converted, "
+                "brackets, '#', ';', '=', backslashes, controls, blanks at the edges), unusual file names (newline, '[', '=', '#', blanks), payloads in the directory part of Yaml= / File= / SetWorkingDirectory= and of the unit's own directory (the paths the generator derives and stores as WorkingDirectory=, --configmap) and extra user sections; each converted, "
                 "the service serialised as to_string does and read back by the implementation's parser; plus random multimap operation sequences model-vs-implementation; "
                 "non-trivial = unit carries at least one payload value or unusual name; distinct = distinct unit texts")
     rng = ctx.rng
@@ -119,6 +119,15 @@ def run(ctx):
             text += rng.choice(["[X-Meta\nExecStartPre=/bin/evil\n]\nK=v\n", "[Service\nExecStart=/bin/evil\nX=]\n", "[A\n]\n"])
         path = "/d/%s.%s" % (rng.choice(names), typ)
         work.append((typ, path, text, used))
+    # the paths the generator derives and stores itself (WorkingDirectory= from Yaml= / File= / the unit's directory / a relative
+    # SetWorkingDirectory=): payloads in the DIRECTORY part
+    for pay in gen_conv.TEXT:
+        d = gen_conv.dq("/srv/" + pay + "/x")
+        work.append(("kube", "/d/k.kube", "[Kube]\nYaml=%s\nSetWorkingDirectory=yaml\n" % d, [("Yaml", pay)]))
+        work.append(("build", "/d/b.build", "[Build]\nImageTag=localhost/t\nFile=%s\nSetWorkingDirectory=file\n" % d, [("File", pay)]))
+        work.append(("build", "/d/b.build", "[Build]\nImageTag=localhost/t\nSetWorkingDirectory=%s\n" % gen_conv.dq("sub/" + pay), [("SetWorkingDirectory", pay)]))
+        work.append(("kube", "/d/%s/k.kube" % pay.replace("/", "_"), "[Kube]\nYaml=p.yaml\nSetWorkingDirectory=unit\n", [("dir", pay)]))
+        work.append(("kube", "/d/%s/k.kube" % pay.replace("/", "_"), "[Kube]\nYaml=sub/p.yaml\nConfigMap=cm.yaml\n", [("dir", pay)]))
     outs = vlib.run_impl([case_line("convert", "0", p, t) for _, p, t, _ in work])
     back_cases, idx = [], []
     for i, o in enumerate(outs):
